@@ -375,6 +375,11 @@ func runSioTimers(sc sScenario, prefix, prefixN []int) (*sched.Exec, *sioRun) {
 						}
 					}
 					ts.Unlock()
+					if !accepted && q.op.D == 0 && errText == "" {
+						// a timer that is due at once may have been retired already (and be on its way to the
+						// emitter) when the request's result is looked at; a refusal would have left its text
+						accepted = true
+					}
 					e := ""
 					if !accepted {
 						e = "not installed"
@@ -475,6 +480,17 @@ func sioScenarios(maxReq int, thorough bool) []sScenario {
 		{{K: "make", Id: "1", D: 10}, {K: "make", Id: "2", D: 12}, {K: "make", Id: "3", D: 14}, sl, rep, {K: "pending"}},
 	} {
 		out = append(out, sScenario{Req: req, Sync: true})
+	}
+	// timers that are due at once (a delay of zero), also under an id that has a timer pending
+	for _, req := range [][]sOp{
+		{{K: "make", Id: "1", D: 0}},
+		{{K: "make", Id: "1", D: 0}, {K: "make", Id: "1", D: 0}, {K: "pending"}},
+		{{K: "make", Id: "1", D: 3600000}, {K: "make", Id: "1", D: 0}, {K: "pending"}, {K: "cancel", Id: "1"}},
+		{{K: "make", Id: "1", D: 10}, {K: "make", Id: "1", D: 0}, sl, {K: "pending"}},
+		{{K: "make", Id: "2", D: 3600000}, {K: "make", Id: "1", D: 0}, {K: "pending"}, sl, rep},
+		{{K: "make", Id: "1", D: 3600000}, {K: "make", Id: "1", D: 0}, sl, rep, restart, sl, {K: "pending"}},
+	} {
+		out = append(out, sScenario{Req: req, Sync: true}, sScenario{Req: req})
 	}
 	return out
 }
